@@ -18,8 +18,9 @@ EXTENDS BoolFun, TLC
 
 Abs(x) == IF x < 0 THEN -x ELSE x
 Sgn(x) == IF x < 0 THEN -1 ELSE 1
-Nodes(s) == {n \in DOMAIN s.succ : s.succ[n][1] >= 0}
-IsRef(s, r) == r # 0 /\ Abs(r) \in Nodes(s)
+NodesOf(s) == {n \in DOMAIN s.succ : s.succ[n][1] >= 0}
+Nodes(s) == IF "N" \in DOMAIN s THEN s.N ELSE NodesOf(s)     \* views (WithD) carry the node set
+IsRef(s, r) == r # 0 /\ Abs(r) \in DOMAIN s.succ /\ s.succ[Abs(r)][1] >= 0
 Lvl(s, r) == s.succ[Abs(r)][1]
 Lo(s, r) == s.succ[Abs(r)][2]
 Hi(s, r) == s.succ[Abs(r)][3]
@@ -54,7 +55,7 @@ DenUp(s, l, D) ==   \* D covers every node at a level > l
                      (x \cap get(s.succ[n][3])) \cup (get(s.succ[n][2]) \ x)]
        IN DenUp(s, l - 1, new @@ D)
 DenMap(s) == DenUp(s, Len(s.order) - 1, (1 :> Univ(NV(s))))
-WithD(s) == s @@ [D |-> DenMap(s)]
+WithD(s) == s @@ [D |-> DenMap(s), N |-> NodesOf(s)]
 Den(s, r) == IF "D" \in DOMAIN s
              THEN (IF r > 0 THEN s.D[r] ELSE Univ(NV(s)) \ s.D[-r])
              ELSE DenSlow(s, r)
@@ -63,31 +64,31 @@ DenMapAgrees(s) == \A n \in Nodes(s) : DenMap(s)[n] = DenSlow(s, n)
 (* Evaluation that tolerates a damaged table (dangling edge, level without a
    variable, cycle): yields "bad" instead of a TLC error.  Used by the trace
    specifications, whose verdict must be total. *)
-WellFormedNode(s, n) ==
-  /\ n \in Nodes(s)
-  /\ IF n = 1 THEN TRUE
-     ELSE LET t == s.succ[n] IN
+AllWellFormed(s) ==
+  LET N == NodesOf(s)
+      nameset == {s.names[k] : k \in 1..Len(s.names)}
+  IN /\ 1 \in N
+     /\ \A n \in N \ {1} : LET t == s.succ[n] IN
           /\ t[1] \in 0..(Len(s.order) - 1)
           /\ t[2] # 0 /\ t[3] # 0
-          /\ Abs(t[2]) \in Nodes(s) /\ Abs(t[3]) \in Nodes(s)
-          /\ s.order[t[1] + 1] \in {s.names[k] : k \in 1..Len(s.names)}
-          /\ (Abs(t[2]) = 1 \/ Lvl(s, t[2]) > t[1])
-          /\ (Abs(t[3]) = 1 \/ Lvl(s, t[3]) > t[1])
-AllWellFormed(s) == 1 \in Nodes(s) /\ \A n \in Nodes(s) : WellFormedNode(s, n)
+          /\ Abs(t[2]) \in N /\ Abs(t[3]) \in N
+          /\ s.order[t[1] + 1] \in nameset
+          /\ (Abs(t[2]) = 1 \/ s.succ[Abs(t[2])][1] > t[1])
+          /\ (Abs(t[3]) = 1 \/ s.succ[Abs(t[3])][1] > t[1])
 
 (* ---- C02: reduced, ordered, unique ---- *)
 TerminalOK(s) == 1 \in Nodes(s) /\ s.succ[1][1] = Len(s.order)
                  /\ s.succ[1][2] = 0 /\ s.succ[1][3] = 0
 HighRegular(s) == \A n \in Nodes(s) \ {1} : s.succ[n][3] > 0
 Reduced(s) == \A n \in Nodes(s) \ {1} : s.succ[n][2] # s.succ[n][3]
-EdgesExist(s) == \A n \in Nodes(s) \ {1} :
+EdgesExist(s) == LET N == Nodes(s) IN \A n \in N \ {1} :
                     /\ s.succ[n][2] # 0 /\ s.succ[n][3] # 0
-                    /\ Abs(s.succ[n][2]) \in Nodes(s) /\ Abs(s.succ[n][3]) \in Nodes(s)
+                    /\ Abs(s.succ[n][2]) \in N /\ Abs(s.succ[n][3]) \in N
 Ordered(s) == \A n \in Nodes(s) \ {1} :
                     /\ s.succ[n][1] \in 0..(Len(s.order) - 1)
                     /\ Lvl(s, s.succ[n][2]) > s.succ[n][1]
                     /\ Lvl(s, s.succ[n][3]) > s.succ[n][1]
-Unique(s) == \A a, b \in Nodes(s) : s.succ[a] = s.succ[b] => a = b
+Unique(s) == LET N == Nodes(s) IN Cardinality({s.succ[a] : a \in N}) = Cardinality(N)
 OrderBijection(s) ==
   /\ \A i, j \in 1..Len(s.order) : s.order[i] = s.order[j] => i = j
   /\ \A i \in 1..Len(s.order) : \E k \in 1..Len(s.names) : s.names[k] = s.order[i]
@@ -98,11 +99,34 @@ DenInjective(s) ==
   \A a, b \in Nodes(s) : \A sa, sb \in {1, -1} :
       Den(s, sa * a) = Den(s, sb * b) => sa * a = sb * b
 (* the same, computed once per node (cheaper): 2*|Nodes| distinct functions *)
+(* For <= 4 variables a model set fits one integer (its truth table).  The
+   truth table of a node follows from those of its children by exact integer
+   arithmetic: a function that does not depend on variable k has truth table
+   M = M0 * (1 + W) with W = 2^(2^(k-1)), M0 its part on assignments with the
+   variable false; hence  node = (hi / (1+W)) * W + lo / (1+W). *)
+RECURSIVE MaskUp(_, _, _)
+MaskUp(s, l, M) ==
+  IF l < 0 THEN M
+  ELSE LET W == Pow2(Pow2(VarNumAtLevel(s, l) - 1))
+           full == Pow2(Pow2(NV(s))) - 1
+           get(r) == IF r > 0 THEN M[r] ELSE full - M[-r]
+           new == [n \in NodesAt(s, l) |->
+                     (get(s.succ[n][3]) \div (1 + W)) * W + get(s.succ[n][2]) \div (1 + W)]
+       IN MaskUp(s, l - 1, new @@ M)
+MaskMap(s) == MaskUp(s, Len(s.order) - 1, (1 :> Pow2(Pow2(NV(s))) - 1))
+MaskSet(k, nv) == {a \in Univ(nv) : Bit(k, a + 1)}
 DenInjectiveFast(s) ==
-  LET D == [n \in Nodes(s) |-> Den(s, n)]
-      pos == {D[n] : n \in Nodes(s)}
-      neg == {Univ(NV(s)) \ D[n] : n \in Nodes(s)}
-  IN Cardinality(pos \cup neg) = 2 * Cardinality(Nodes(s))
+  LET N == Nodes(s) IN
+  IF NV(s) <= 4
+  THEN LET M == MaskMap(s)
+           full == Pow2(Pow2(NV(s))) - 1
+           pos == {M[n] : n \in N}
+           neg == {full - k : k \in pos}
+       IN Cardinality(pos) = Cardinality(N) /\ pos \cap neg = {}
+  ELSE LET pos == {Den(s, n) : n \in N}
+           neg == {Univ(NV(s)) \ Den(s, n) : n \in N}
+       IN Cardinality(pos \cup neg) = 2 * Cardinality(N)
+MaskMapAgrees(s) == NV(s) > 4 \/ \A n \in Nodes(s) : MaskSet(MaskMap(s)[n], NV(s)) = DenSlow(s, n)
 
 (* ---- C06: reference counts ---- *)
 InDeg(s, n) == Cardinality({x \in Nodes(s) \ {1} : Abs(s.succ[x][2]) = n})
